@@ -68,6 +68,26 @@ br_ssl_client_reset(br_ssl_client_context *cc,
 	}
 
 	/*
+	 * During a handshake the session ID chosen by the server is
+	 * recorded as soon as the ServerHello is read, while the master
+	 * secret is replaced only once the key exchange is done. If the
+	 * handshake stops in between (e.g. the certificate is rejected),
+	 * the context holds that new ID along with the previous master
+	 * secret, and a later call with a non-zero resume_session offers
+	 * the ID again. The previous master secret must then not be a
+	 * value that the peer may know, such as the all-zero contents of
+	 * a context that never completed a handshake: otherwise that peer
+	 * could run an abbreviated handshake, i.e. be accepted without
+	 * any certificate. When there is no session to resume, we thus
+	 * start from an unpredictable master secret.
+	 */
+	if (cc->eng.session.session_id_len == 0) {
+		br_hmac_drbg_generate(&cc->eng.rng,
+			cc->eng.session.master_secret,
+			sizeof cc->eng.session.master_secret);
+	}
+
+	/*
 	 * We always set back the "reneg" flag to 0 because we use it
 	 * to distinguish between first handshake and renegotiation.
 	 * Note that "renegotiation" and "session resumption" are two
